@@ -414,6 +414,10 @@ def run(ctx, chk, tier):
     if n < 170:
         chk.unknown("R10.1", "only %d callables analysed (hand-confirmed floor 170 of 177)" % n)
     shapes_and_aliases(ctx, chk)
+    # the per-class queries of a vectorised multi-class ConfusionMatrix go through one_vs_all(): each (..., j, 2, 2) slab is built from the
+    # cells of ITS OWN matrix (sums over the last two axes only - a sum over all axes mixes the elements of the stack)
+    from . import c05 as _c05
+    _c05.check_one_vs_all(ctx, chk)
 
 
 def memo_rule(ctx, chk, outs, q, label, rule="R10.1"):
@@ -930,6 +934,42 @@ def shapes_and_aliases(ctx, chk):
             chk.hold("R10.2", "scalar:" + q.split(".")[-1], "0-d result reduced to a plain scalar (.item())", nontrivial=False)
         else:
             chk.unknown("R10.2", "%s: no scalar reduction (.item()) found in the function or its helpers" % q)
+    # the reduction is taken for EVERY scalar input: numpy scalars of any width (np.float32(0.3), an element of a float32 array) are scalars too,
+    # `isinstance(x, (int, float))` only knows Python numbers and np.float64
+    def guard_of_item(fi):
+        parents = {c_: n_ for n_ in _ast.walk(fi.node) for c_ in _ast.iter_child_nodes(n_)}
+        out = []
+        for n_ in _ast.walk(fi.node):
+            if isinstance(n_, _ast.Attribute) and n_.attr == "item":
+                p_ = n_
+                while p_ in parents and not (isinstance(parents[p_], _ast.If) and p_ is not parents[p_].test) and not (isinstance(parents[p_], _ast.IfExp) and p_ is not parents[p_].test):
+                    p_ = parents[p_]
+                g = parents.get(p_)
+                if g is None:
+                    out.append((n_, None))
+                    continue
+                t_ = g.test
+                if isinstance(t_, _ast.Name):
+                    binds = [a_ for a_ in _ast.walk(fi.node) if isinstance(a_, _ast.Assign) and len(a_.targets) == 1 and isinstance(a_.targets[0], _ast.Name)
+                             and a_.targets[0].id == t_.id and a_.lineno < g.lineno]
+                    t_ = max(binds, key=lambda a_: a_.lineno).value if binds else t_
+                out.append((n_, t_))
+        return out
+    for q in [SCORES + "._threshold_at_ratio"]:
+        f = ctx.db.function(q)
+        for site, test in guard_of_item(f):
+            src = _ast.unparse(test) if test is not None else ""
+            typed = test is not None and any(isinstance(c_, _ast.Call) and isinstance(c_.func, _ast.Name) and c_.func.id == "isinstance" and len(c_.args) == 2
+                                             and set(_ast.unparse(c_.args[1]).strip("()").replace(" ", "").split(",")) <= {"int", "float", "complex", "bool", ""}
+                                             for c_ in _ast.walk(test)) or (test is not None and any(isinstance(c_, _ast.Call) and isinstance(c_.func, _ast.Name) and c_.func.id == "type" for c_ in _ast.walk(test)))
+            if typed:
+                chk.violation("R10.2", q, "scalar-test:%s" % q.split(".")[-1], "the scalar reduction is guarded by `%s`" % src[:100],
+                              "a test that is true for every scalar input (np.isscalar(x), x.ndim == 0): numpy scalars such as np.float32(0.3) are not instances of int / float",
+                              "%s:%d" % (f.module.relpath, site.lineno))
+            elif "isscalar" in src or "ndim" in src:
+                chk.hold("R10.2", "scalar-test:%s" % q.split(".")[-1], "scalar reduction guarded by `%s`" % src[:60], nontrivial=False)
+            else:
+                chk.hold("R10.2", "scalar-test:%s" % q.split(".")[-1], "the guard of the scalar reduction (`%s`) is not a test of the Python type" % src[:60], nontrivial=False)
     # ---------------- R10.3 rate aliases are pure delegations
     for alias, tgt in ALIASES.items():
         seen = []
